@@ -195,6 +195,15 @@ def decodeRest (size : Nat) : List (Block V) → Pts V → M (List (Block V) × 
         decodeRest size bs (vMerge mv v)
     else pure (b :: bs, mv)
 
+/-- `if k.fast { … }` as a step on (`k.merged` additions, `k.blocks[i:]`) -/
+def passFastIf (fast : Bool) (rest : List (Block V)) : List (OBlk V) × List (Block V) :=
+  if fast then (passFast rest, []) else ([], rest)
+
+/-- `if i == len(k.blocks)-1 { if !k.blocks[i].read() { k.merged = append(k.merged, k.blocks[i]) }; i++ }` -/
+def passLast : List (Block V) → List (OBlk V) × List (Block V)
+  | [b] => (if !read b then [passThrough b] else [], [])
+  | rest => ([], rest)
+
 /-- `combine<T>(dedup)`; `k.merged` is empty on entry (see `Iter.next`). -/
 def combine (cfg : Cfg) (dedup : Bool) (s : KSt V) : M (KSt V) :=
   if dedup then do
@@ -204,11 +213,8 @@ def combine (cfg : Cfg) (dedup : Bool) (s : KSt V) : M (KSt V) :=
     pure ⟨blocks, mv', out⟩
   else do
     let (o1, rest) := passFull cfg.size s.blocks
-    let (o2, rest) := if cfg.fast then (passFast rest, []) else (([] : List (OBlk V)), rest)
-    -- if i == len(k.blocks)-1
-    let (o3, rest) := match rest with
-      | [b] => (if !read b then [passThrough b] else [], [])
-      | _ => ([], rest)
+    let (o2, rest) := passFastIf cfg.fast rest
+    let (o3, rest) := passLast rest
     let (rest', mv) ← decodeRest cfg.size rest s.mv
     let (out, mv') ← chunk cfg.size (s.merged ++ o1 ++ o2 ++ o3) mv
     pure ⟨rest', mv', out⟩
@@ -220,19 +226,20 @@ def needDedupTail : Block V → List (Block V) → Bool
     (partiallyRead b || overlapsTimeRange b prev.minTime prev.maxTime || decide (b.tombstones.length > 0))
       || needDedupTail b bs
 
+/-- the `dedup` decision of `merge<T>()`: `dedup0` = "merged values are pending" -/
+def needDedup (dedup0 : Bool) : List (Block V) → Bool
+  | b0 :: bs =>
+    if !dedup0 then
+      (decide (b0.tombstones.length > 0) || partiallyRead b0) || needDedupTail b0 bs
+    else dedup0
+  | [] => dedup0
+
 /-- `merge<T>()`. -/
 def mergeStep (cfg : Cfg) (s : KSt V) : M (KSt V) :=
   if s.blocks.length = 0 ∧ s.merged.length = 0 ∧ s.mv.length = 0 then pure s
   else
     let blocks := Sort.stable blkLess s.blocks
-    let dedup := decide (s.mv.length ≠ 0)
-    let dedup := match blocks with
-      | b0 :: bs =>
-        if !dedup then
-          (decide (b0.tombstones.length > 0) || partiallyRead b0) || needDedupTail b0 bs
-        else dedup
-      | [] => dedup
-    combine cfg dedup { s with blocks := blocks }
+    combine cfg (needDedup (decide (s.mv.length ≠ 0)) blocks) { s with blocks := blocks }
 
 /-! ### the whole iterator -/
 
@@ -282,36 +289,45 @@ def takeKey (key : Key) : List (Key × List (Block V)) → List (Block V) × Lis
     let (bl, bufs') := takeKey key bufs
     if b.2.length ≠ 0 ∧ b.1 = key then (b.2 ++ bl, (b.1, []) :: bufs') else (bl, b :: bufs')
 
+/-- "Read the next block from each TSM iterator … find all blocks that match the min key":
+    returns the iterators, the buffers, `k.key` and the blocks appended to `k.blocks`. -/
+def load (its : List (FileRuns V)) (buf : List (Key × List (Block V))) :
+    List (FileRuns V) × List (Key × List (Block V)) × Key × List (Block V) :=
+  let (its, buf) := refill its buf
+  let key := minKey buf []
+  let (bl, buf) := takeKey key buf
+  (its, buf, key, bl)
+
+/-- `if len(k.merged) > 0 { k.merged = k.merged[1:] }` -/
+def popMerged (st : KSt V) : KSt V :=
+  if st.merged.length > 0 then { st with merged := st.merged.tail } else st
+
+/-- `if cond { k.merge() }` -/
+def mergeIf (cfg : Cfg) (cond : Bool) (st : KSt V) : M (KSt V) :=
+  if cond then mergeStep cfg st else pure st
+
 /-- `tsmBatchKeyIterator.Next`. `fuel` bounds the `goto RETRY` loop. -/
 def Iter.next (cfg : Cfg) : Nat → Iter V → M (Bool × Iter V)
   | 0, _ => throw "hang"
   | fuel + 1, k => do
     -- Any merged blocks pending?
-    let k := if k.st.merged.length > 0 then { k with st := { k.st with merged := k.st.merged.tail } } else k
-    if k.st.merged.length > 0 then return (true, k)
+    let st := popMerged k.st
+    if st.merged.length > 0 then return (true, { k with st := st })
     -- Any merged values pending?
-    let hadMv := decide (k.st.mv.length > 0)
-    let k ← (if hadMv then do
-              let st ← mergeStep cfg k.st
-              pure { k with st := st }
-            else pure k : M (Iter V))
-    if hadMv ∧ (k.st.merged.length > 0 ∨ k.st.mv.length > 0) then return (true, k)
+    let hadMv := decide (st.mv.length > 0)
+    let st ← mergeIf cfg hadMv st
+    if hadMv ∧ (st.merged.length > 0 ∨ st.mv.length > 0) then return (true, { k with st := st })
     -- If we still have blocks from the last read, merge them
-    let hadBlocks := decide (k.st.blocks.length > 0)
-    let k ← (if hadBlocks then do
-              let st ← mergeStep cfg k.st
-              pure { k with st := st }
-            else pure k : M (Iter V))
-    if hadBlocks ∧ (k.st.merged.length > 0 ∨ k.st.mv.length > 0) then return (true, k)
+    let hadBlocks := decide (st.blocks.length > 0)
+    let st ← mergeIf cfg hadBlocks st
+    if hadBlocks ∧ (st.merged.length > 0 ∨ st.mv.length > 0) then return (true, { k with st := st })
     -- Read the next block from each TSM iterator
-    let (its, buf) := refill k.its k.buf
-    let key := minKey buf []
-    let (bl, buf) := takeKey key buf
-    let k : Iter V := { its := its, buf := buf, key := key, st := { k.st with blocks := k.st.blocks ++ bl } }
-    if k.st.blocks.length = 0 then return (false, k)
-    let st ← mergeStep cfg k.st
-    let k := { k with st := st }
-    if k.st.merged.length = 0 then Iter.next cfg fuel k
+    let (its, buf, key, bl) := load k.its k.buf
+    let st := { st with blocks := st.blocks ++ bl }
+    if st.blocks.length = 0 then return (false, { its := its, buf := buf, key := key, st := st })
+    let st ← mergeStep cfg st
+    let k : Iter V := { its := its, buf := buf, key := key, st := st }
+    if st.merged.length = 0 then Iter.next cfg fuel k
     else return (true, k)
 
 /-- `for iter.Next() { key, min, max, block := iter.Read(); w.WriteBlock(…) }`: the emitted blocks.
